@@ -50,6 +50,8 @@ func c07Ops() []c07Op {
 			ops = append(ops, c07Op{n, "unbond", who, s})
 		}
 	}
+	// ROLE COLLISION: the borrower is also a lender (its own debt carries pending interest when it withdraws)
+	ops = append(ops, c07Op{"X.bond(1000000)", "bond", "X", 1000000}, c07Op{"X.unbond(all)", "unbond", "X", -1}, c07Op{"X.unbond(10)", "unbond", "X", 10})
 	ops = append(ops, c07Op{"borrow(cap-1)", "borrow", "", -1}, c07Op{"borrow(cap)", "borrow", "", 0}, c07Op{"borrow(cap+1)", "borrow", "", 1}, c07Op{"borrow(7)", "borrow", "", 7})
 	// elapse: time passes and NOTHING books the borrower's interest (pending, un-stacked interest at
 	// the next op) — accrue books it at once, the way the every-block sweep does
@@ -321,7 +323,7 @@ func (r *c07Run) others(pre, post c07Obs, op c07Op, allow *big.Rat, bad func(str
 		return
 	}
 	for n := range r.addr {
-		if n == op.Who || n == "X" {
+		if n == op.Who {
 			continue
 		}
 		v0 := new(big.Rat).Mul(new(big.Rat).SetInt(pre.shares[n].BigInt()), rate0)
@@ -356,7 +358,7 @@ func (r *c07Run) nextBlocks(ctx sdk.Context, n int) sdk.Context {
 func (r *c07Run) key(ctx sdk.Context) string {
 	o := r.observe(ctx)
 	p := r.w.App.StablestakeKeeper.GetParams(ctx)
-	return fmt.Sprintf("%s|%s|%s|%s|%s|%s|%d|%s|%s", o.tv, o.supply, o.cash, o.shares["A"], o.shares["B"], o.debt, ctx.BlockTime().Unix(), p.InterestRate, p.RedemptionRate) + fmt.Sprintf("|h%%%d=%d", maxI(int64(p.EpochLength), 1), ctx.BlockHeight()%maxI(int64(p.EpochLength), 1))
+	return fmt.Sprintf("%s|%s|%s|%s|%s|%s|%d|%s|%s", o.tv, o.supply, o.cash, o.shares["A"], o.shares["B"].String()+"/"+o.shares["X"].String(), o.debt, ctx.BlockTime().Unix(), p.InterestRate, p.RedemptionRate) + fmt.Sprintf("|h%%%d=%d", maxI(int64(p.EpochLength), 1), ctx.BlockHeight()%maxI(int64(p.EpochLength), 1))
 }
 
 func (r *c07Run) dfs(ctx sdk.Context, depth, maxDepth int, path []string, first int) {
